@@ -66,6 +66,18 @@ func (r *renderer) scalar(t, site string) {
 	r.emit(t)
 }
 
+// keyText spells a match key: an integer key may be written with leading zeros (keys are
+// decimal numbers: 010 is ten).
+func (r *renderer) keyText(k, site string) string {
+	if k == "" || strings.Trim(k, "0123456789") != "" {
+		return k
+	}
+	if r.sp.Choose("keyzero:"+site, 4) == 1 {
+		return "0" + k
+	}
+	return k
+}
+
 func (r *renderer) doc(d, site string) {
 	if d != "" {
 		r.emit("`" + d + "`")
@@ -83,7 +95,15 @@ func (r *renderer) typeToks(k Kind, t string, n int, z bool, site string) {
 		} else {
 			r.emit("char[")
 		}
-		r.emit(fmt.Sprint(n))
+		// DIGITS is [0-9]+ and read as a decimal number: 08 and 010 are 8 and 10
+		switch r.sp.Choose("lenzero:"+site, 4) {
+		case 1:
+			r.emit("0" + fmt.Sprint(n))
+		case 2:
+			r.emit("00" + fmt.Sprint(n))
+		default:
+			r.emit(fmt.Sprint(n))
+		}
 		r.emit("]")
 	case KDyn:
 		if r.sp.Choose("dyn:"+site, 2) == 1 {
@@ -227,7 +247,7 @@ func (r *renderer) field(p *Program, owner string, f *Field, inInline bool, ro R
 						pairSite = "lastpair"
 					}
 					r.site = pairSite + "-start"
-					r.emit(k)
+					r.emit(r.keyText(k, fmt.Sprintf("%s#%d.%d", site, pi, ki)))
 					r.emit(":")
 					r.emit(pr.Target)
 					r.site = pairSite + "-end"
@@ -256,13 +276,13 @@ func (r *renderer) field(p *Program, owner string, f *Field, inInline bool, ro R
 						r.emit(",")
 					}
 					r.mark(fmt.Sprintf("key:%s#%d.%d", site, pi, ki))
-					r.emit(k)
+					r.emit(r.keyText(k, fmt.Sprintf("%s#%d.%d", site, pi, ki)))
 					r.close(fmt.Sprintf("key:%s#%d.%d", site, pi, ki))
 				}
 				r.emit("]")
 			} else {
 				r.mark(fmt.Sprintf("key:%s#%d.%d", site, pi, 0))
-				r.emit(pr.Keys[0])
+				r.emit(r.keyText(pr.Keys[0], fmt.Sprintf("%s#%d.0", site, pi)))
 				r.close(fmt.Sprintf("key:%s#%d.%d", site, pi, 0))
 			}
 			r.emit(":")
@@ -489,6 +509,12 @@ type Layouter interface {
 	Gap(i int, t Tok, must bool) string
 }
 
+// PreGapper is an optional extension of Layouter: whitespace-only lines between two own-line
+// comments that stand in front of the same token.
+type PreGapper interface {
+	PreGap(i, j int) string
+}
+
 // PlainLayout is the conventional one-declaration-per-line layout.
 type PlainLayout struct{}
 
@@ -551,7 +577,10 @@ func Layout(toks []Tok, l Layouter) (string, map[string]Span) {
 			if b.Len() > 0 && !strings.HasSuffix(b.String(), "\n") {
 				write("\n")
 			}
-			for _, c := range t.Pre {
+			for j, c := range t.Pre {
+				if pg, ok := l.(PreGapper); ok && j > 0 {
+					write(pg.PreGap(i, j)) // blank lines between the comments of one block
+				}
 				write(tail + "//" + c + "\n")
 			}
 			write(tail)
